@@ -403,7 +403,10 @@ impl TmplGroup {
 
     fn write_all_scripts(&self, w: &mut JsFunctionScopeWriter<String>) -> Result<(), TmplError> {
         if self.scripts.len() > 0 {
-            for (p, script) in self.scripts.iter() {
+            // sort by path for deterministic output
+            let mut scripts: Vec<_> = self.scripts.iter().collect();
+            scripts.sort_by(|a, b| a.0.cmp(b.0));
+            for (p, script) in scripts {
                 w.expr_stmt(|w| {
                     write!(
                         w,
@@ -433,7 +436,7 @@ impl TmplGroup {
                         Ok(())
                     })?;
                     self.write_group_global_content(w)?;
-                    for (path, tree) in self.trees.iter() {
+                    for (path, tree) in self.sorted_trees() {
                         w.expr_stmt(|w| {
                             write!(w, r#"G[{}]="#, gen_lit_str(path))?;
                             tree.to_proc_gen(w, self)?;
@@ -468,7 +471,7 @@ impl TmplGroup {
                         Ok(())
                     })?;
                     self.write_group_global_content(w)?;
-                    for (path, tree) in self.trees.iter() {
+                    for (path, tree) in self.sorted_trees() {
                         w.expr_stmt(|w| {
                             write!(w, r#"__wxCodeSpace__.addCompiledTemplate({path},{{groupList:G,content:G[{path}]="#, path = gen_lit_str(path))?;
                             tree.to_proc_gen(w, self)?;
@@ -504,6 +507,13 @@ impl TmplGroup {
             Ok(())
         })?;
         Ok(w.finish())
+    }
+
+    /// List all templates sorted by path (for deterministic output).
+    fn sorted_trees(&self) -> Vec<(&String, &Template)> {
+        let mut trees: Vec<_> = self.trees.iter().collect();
+        trees.sort_by(|a, b| a.0.cmp(b.0));
+        trees
     }
 
     /// Returns the number of templates in the group.
